@@ -282,6 +282,17 @@ class Check:
                 self.coverage["discharged"] += 1
             else:
                 raise Broken(f"theorem {name} depends on axioms", text)
+        if not self.quick:
+            # independent re-check of the compiled closure, and its axiom summary
+            lib = "BPProps." + prop_file[:-2]
+            rc, out, err = run(["timeout", "3000", "coqchk", "-silent", "-o"] + COQ_FLAGS + [lib], cwd=COQ, timeout=3100)
+            summary = out[out.find("CONTEXT SUMMARY"):] if "CONTEXT SUMMARY" in out else (out + err)[-1500:]
+            self.coverage["coqchk"] = summary.strip()
+            self.coverage["obligations"] += 1
+            if rc == 0 and "* Axioms: <none>" in summary:
+                self.coverage["discharged"] += 1
+            else:
+                raise Broken(f"coqchk does not accept {lib} or reports axioms", summary[-2000:])
         self.coverage["checker_cmd"] = (
             f"cd {COQ} && coq_makefile -f _CoqProject -o Makefile && make {vo}  "
             f"(coqc 8.16.1, full .vo build; Print Assumptions after every theorem)")
